@@ -188,7 +188,8 @@ SCHEMAS = {
     'mixed_case': {
         'classes': ['Person', 'Pet'],
         'attrs': {'Person': [at('Id', ID), at('Name', 'STRING'), at('age', 'INTEGER')],
-                  'Pet': [at('id', ID), at('name', 'STRING'), at('Age', 'INTEGER'), at('owner_id', ID)]},
+                  # (a name may start with an underscore and contain digits)
+                  'Pet': [at('id', ID), at('name', 'STRING'), at('Age', 'INTEGER'), at('owner_id', ID), at('_Tag2', 'STRING')]},
         'assocs': [A('R1', 'Pet', ['owner_id'], 'MC', 'Person', ['Id'], '1C')],
         'uniques': {'Person': [U('I1', 'Id')], 'Pet': [U('I1', 'id')]},
     },
